@@ -114,6 +114,12 @@ def gen_case(rng, kind):
         base["node"] = [{"leaf": a}, {"leaf": b}] + base["node"] + [{"leaf": rng.choice([a, b])}]
     case = {"kind": kind, "atoms": atoms, "trees": [base] + (variants(rng, base) if kind != "bad" else []),
             "complement": [], "iter": []}
+    # two-member unions of boundary faces: the runner also forms them with Boundary.__add__ (same set required)
+    faces = [i for i, a in enumerate(atoms) if a["t"] in ("face", "bnd")]
+    if faces and kind != "bad":
+        case["nvariants"] = len(case["trees"])        # the trees after this index are not variants of the first one
+        for _ in range(2):
+            case["trees"].append({"node": [{"leaf": rng.choice(faces)}, {"leaf": rng.choice(faces)}]})
     big = {"node": [{"leaf": i} for i in rng.sample(range(n), rng.randint(2, n))]}
     arg = rng.choice([gen_tree(rng, n, 1), {"leaf": rng.randrange(n)}, {"none": 1}, {"bad": 1} if rng.random() < 0.1 else {"none": 1}])
     case["complement"].append([big, arg])
@@ -270,7 +276,8 @@ def oracle(case, res):
         shape = {0: "none", 1: "atom"}.get(len(want), "union")
         if r["r"] != shape:
             bad.append((lab, "degenerate case: %d members gave %s" % (len(want), r["r"])))
-        ok_results.append((lab, r))
+        if k < case.get("nvariants", len(case["trees"])):
+            ok_results.append((lab, r))
     # all variants denote the same set: equal members, hash and str
     if case["kind"] != "bad" and ok_results:
         l0, r0 = ok_results[0]
@@ -327,7 +334,10 @@ def shrink(run, case, label, fails):
                     break
     elif kind == "tree":
         best["complement"], best["iter"] = [], []
+        nv = best.get("nvariants", len(best["trees"]))
         best["trees"] = [best["trees"][0], best["trees"][idx]] if idx else [best["trees"][0]]
+        if "nvariants" in best:
+            best["nvariants"] = 2 if 0 < idx < nv else 1
     elif kind == "compl":
         best["trees"], best["iter"] = [], []
     return best
